@@ -7,7 +7,7 @@ from mc.synth import sfcf as sf
 
 CFGS = {1: list(range(1, 11)), 2: list(range(2, 24, 2)), 10: [3, 4, 7, 8, 9, 12, 13, 15, 16, 20]}
 VERSION = {'o': '2.0', 'c': '2.0c', 'a': '2.0a'}
-PREFIX = 'dataE'      # no 'r' in the prefix: the replica separator is the first 'r' of the name
+PREFIX = 'dataE'      # default; cases may carry another one (set at the start of run_sfcf)
 
 
 def build(tier):
@@ -15,6 +15,9 @@ def build(tier):
     for layout in ('o', 'c', 'a'):
         for reps in ([1], [1, 2], [1, 2, 10]):
             cases.append({'kind': 'sfcf', 'layout': layout, 'reps': reps})
+        # file prefixes that contain the replica separator letter themselves (also followed by a digit)
+        cases.append({'kind': 'sfcf', 'layout': layout, 'reps': [1, 2, 10], 'prefix': 'run_'})
+        cases.append({'kind': 'sfcf', 'layout': layout, 'reps': [1, 2], 'prefix': 'corr3x'})
     cases.append({'kind': 'hadrons'})
     return cases
 
@@ -50,6 +53,8 @@ def expected(reps, name, qi, off, w, w2, t, im, cfgsel=None, rep_names=None):
 
 def run_sfcf(pe, acc, case, d):
     from checks.c17 import check_obs
+    global PREFIX
+    PREFIX = case.get('prefix', 'dataE')
     layout, reps = case['layout'], case['reps']
     write_set(layout, d, reps)
     rd = pe.input.sfcf
